@@ -298,7 +298,7 @@ func TestC02(t *testing.T) {
 			add(b, 28, eng.ModeNative, false, "gnark-engine")
 			add(b, 60, []eng.Mode{eng.ModeCommit, eng.ModePlain, eng.ModeNative}[len(items)%3], false, "process-history")
 			add(b, 28, eng.ModeNative, false, "monitor")
-			add(b, 3, eng.ModePlain, false, "monitor")
+			add(b, 3, eng.ModeNative, false, "monitor") // (a plain-flavour monitor run keeps a DAG node per decomposed bit: tens of GB)
 			add(b, 28, eng.ModeNative, true, "plain")
 			add(b, 5, eng.ModeCommit, true, "plain")
 		}
